@@ -1,6 +1,7 @@
 """./check configuration for C05 (see verif_props.py)."""
 
-PROP = {'module': 'GolibsVerif.Theorems.C05',
+PROP = {'technique': 'Lean refinement of the index-arithmetic decoders to a label-level specification (longest aligned suffix), masking invariant, totality with explicit idna contracts shown necessary; differential tie incl. bounded-exhaustive label sequences',
+ 'module': 'GolibsVerif.Theorems.C05',
  'namespace': 'GolibsVerif.C05',
  'rule': 'all label sequences of length 0..3 (quick) / 0..5 (thorough) over {0,7,10,255,00,256,01,x,a,F,aa,1a} under both roots for '
          'PrefixFromReversedAddr and ExtractReversedAddr, plus grammar-directed names (0..36 labels, case variants, look-alike roots, '
